@@ -30,7 +30,8 @@ Recursion is on explicit fuel (`BSx.depth e + 1` suffices; exhausted fuel is `Er
 `context` is passed functionally: the only in-place changes the Python makes to it below circuit level are the
 block-context markers, which `in_block_context` restores on exit (they are the three Booleans of `Ctx`), and
 `build_macro` works on a copy.  The memo table can be keyed as the code does now (`KeyMode.new`), as it did before
-today's repair (`KeyMode.old`, context entries of top-level string arguments only) or switched off (`KeyMode.off`).
+the repairs (`KeyMode.oldNum`: numbers compared by value; `KeyMode.old`: moreover context entries of top-level string
+arguments only) or switched off (`KeyMode.off`).
 -/
 namespace Jaqal.Builder
 open Jaqal
@@ -184,6 +185,16 @@ def mkRegister (name : String) (size : Val) : M Val :=
     -- a constant or parameter of kind FLOAT cannot size a register
     if isAV size && avKind size == .float then throw (.jaqal "size-kind") else pure (.regF name size)
 
+def isIntLit : Val → Bool
+  | .int _ => true
+  | _ => false
+
+/-- `reg.size` (`Register.resolve_size({})`); a resolved slice step of zero is a JaqalError there -/
+def regSize (src : Val) : M Val :=
+  match Resolve.resolveSize [] src with
+  | .error (.other "ValueError") => .error (.jaqal "zero-step")
+  | r => r
+
 /-- the checks of `Register(name, alias_from=src, alias_slice=slice(start, stop, step))`; none of the bounds is
 `None` (the builder has filled in the defaults). `src` is a register or a parameter. -/
 def sliceCheck (src start stop step : Val) : M Unit := do
@@ -193,9 +204,11 @@ def sliceCheck (src start stop step : Val) : M Unit := do
     if isAV step && !kindIntOrNone (avKind step) then throw (.jaqal "slice-step-kind")
     if isAV src && !kindRegOrNone (avKind src) then throw (.jaqal "slice-source-kind")
   else
+    -- every bound that is not `None` must be a Python int
+    if !(isIntLit start && isIntLit stop && isIntLit step) then throw (.jaqal "slice-bound-not-an-integer")
     if pyEq0 step then throw (.jaqal "zero-step")
     if ← pyLt start (.int 0) then throw (.jaqal "index-out-of-range")
-    let size ← Resolve.resolveSize [] src            -- `alias_from.size`
+    let size ← regSize src            -- `alias_from.size`
     if size == .none || isAV size then
       pure ()
     else
@@ -219,13 +232,13 @@ def qubitCheck (src idx : Val) : M Unit := do
     if isAV idx && !kindIntOrNone (avKind idx) then throw (.jaqal "index-kind")
     if isAV src && !kindRegOrNone (avKind src) then throw (.jaqal "source-kind")
   else
-    -- `alias_index != int(alias_index)`
+    -- `not isinstance(alias_index, (int, float)) or alias_index != int(alias_index)`
     match idx with
     | .int _ => pure ()
     | .flt d => if !d.isIntegral then throw (.jaqal "index-not-integer")
-    | _ => throw (.other "TypeError")
+    | _ => throw (.jaqal "index-not-integer")      -- `not isinstance(alias_index, (int, float))`
     -- `try: from_size = int(alias_from.size) except JaqalError: return`
-    match (Resolve.resolveSize [] src >>= pyIntOfSize) with
+    match (regSize src >>= pyIntOfSize) with
     | .error (.jaqal _) => pure ()
     | .error e => throw e
     | .ok k =>
@@ -285,9 +298,18 @@ def dictSet {β : Type} (k : String) (v : β) : List (String × β) → List (St
 
 /-! ### The gate memo table -/
 
+/-- how the memo table is keyed: as the code does today (`new`); as it did before numbers were typed in the key
+(`oldNum`: numbers compared with Python `==`, so `1` and `1.0` collide); as it did before that and before the key
+covered names inside array items (`old`); or not at all (`off`) -/
 inductive KeyMode where
-  | new | old | off
+  | new | oldNum | old | off
   deriving DecidableEq, Repr, Inhabited
+
+/-- are numbers in the argument tuple compared with Python `==` (the keys before `_make_hashable` typed them)? -/
+def KeyMode.numByValue : KeyMode → Bool
+  | .old => true
+  | .oldNum => true
+  | _ => false
 
 mutual
 /-- `make_context_entry` of today's `_make_gate_memo_key`, flattened in traversal order (the nesting of the
@@ -317,15 +339,13 @@ def mkKey (mode : KeyMode) (ctx : Ctx) (name : String) (args : List BSx) : Key :
   { name := name, args := args, ents := if mode = .old then entsOld ctx args else entsOfList ctx args }
 
 mutual
-/-- Python `==` of the hashable argument tuples (which is what the `dict` uses, together with `hash`):
-numbers compare by value across int/float (`1 == 1.0`, `hash(1) == hash(1.0)`), the rest structurally.
+/-- `==` of the hashable argument tuples as `_make_hashable` builds them today: a number is the pair of its type name
+and its `repr`, so ints and floats never collide and `0.0 ≠ -0.0`; strings, `None` and nesting compare structurally.
 Built objects inside arguments are compared structurally. -/
 def BSx.keyEq : BSx → BSx → Bool
   | .str a, .str b => a == b
   | .int a, .int b => a == b
-  | .int a, .flt b => Num.veq (.int a) (.flt b)
-  | .flt a, .int b => Num.veq (.flt a) (.int b)
-  | .flt a, .flt b => Num.veq (.flt a) (.flt b)
+  | .flt a, .flt b => decide (a = b)
   | .none, .none => true
   | .list a, .list b => BSx.keyEqList a b
   | .val a, .val b => decide (a = b)
@@ -336,14 +356,34 @@ def BSx.keyEqList : List BSx → List BSx → Bool
   | _, _ => false
 end
 
-def Key.eqv (a b : Key) : Bool := a.name == b.name && BSx.keyEqList a.args b.args && decide (a.ents = b.ents)
+mutual
+/-- the same before numbers were typed in the key: Python `==` on numbers (`1 == 1.0`, `hash(1) == hash(1.0)`) -/
+def BSx.keyEqV : BSx → BSx → Bool
+  | .str a, .str b => a == b
+  | .int a, .int b => a == b
+  | .int a, .flt b => Num.veq (.int a) (.flt b)
+  | .flt a, .int b => Num.veq (.flt a) (.int b)
+  | .flt a, .flt b => Num.veq (.flt a) (.flt b)
+  | .none, .none => true
+  | .list a, .list b => BSx.keyEqVList a b
+  | .val a, .val b => decide (a = b)
+  | _, _ => false
+def BSx.keyEqVList : List BSx → List BSx → Bool
+  | [], [] => true
+  | a :: as, b :: bs => BSx.keyEqV a b && BSx.keyEqVList as bs
+  | _, _ => false
+end
+
+def Key.eqv (byValue : Bool) (a b : Key) : Bool :=
+  a.name == b.name && (if byValue then BSx.keyEqVList a.args b.args else BSx.keyEqList a.args b.args) &&
+    decide (a.ents = b.ents)
 
 abbrev Memo := List (Key × Stmt)
 
-def Memo.find (m : Memo) (k : Key) : Option Stmt :=
+def Memo.find (byValue : Bool) (m : Memo) (k : Key) : Option Stmt :=
   match m with
   | [] => Option.none
-  | (k', g) :: r => if Key.eqv k' k then some g else Memo.find r k
+  | (k', g) :: r => if Key.eqv byValue k' k then some g else Memo.find byValue r k
 
 structure St where
   memo : Memo := []
@@ -455,7 +495,7 @@ def valStep (get : String → Option Val) (rec : BSx → M Val) (l : List BSx) :
           let stop ← (if stop0 == .none then
               match src with
               | .param _ _ => throw (.other "AttributeError")      -- a `Parameter` has no `.size`
-              | _ => Resolve.resolveSize [] src
+              | _ => regSize src
             else pure stop0 : M Val)
           let step0 ← rec stepE
           let step := if step0 == .none then .int 1 else step0
@@ -525,7 +565,7 @@ def buildGate (cfg : Config) (mode : KeyMode) (ctx : Ctx) (recV : BSx → M Val)
   | [] => throw (.other "ValueError")
   | .str name :: gargs =>
     let key := mkKey mode ctx name gargs
-    match (if mode = .off then Option.none else Memo.find st.memo key) with
+    match (if mode = .off then Option.none else Memo.find mode.numByValue st.memo key) with
     | some g => pure (g, st)
     | Option.none => do
       let (s, g') ← buildGateFresh cfg recV name gargs st.gctx
@@ -797,6 +837,7 @@ def buildWith (mode : KeyMode) (cfg : Config) (e : BSx) : M Circuit := do
 def build (cfg : Config) (e : BSx) : M Circuit := buildWith .new cfg e
 def buildNoMemo (cfg : Config) (e : BSx) : M Circuit := buildWith .off cfg e
 def buildOldKey (cfg : Config) (e : BSx) : M Circuit := buildWith .old cfg e
+def buildOldNumKey (cfg : Config) (e : BSx) : M Circuit := buildWith .oldNum cfg e
 
 /-- `reg.fundamental` over `circuit.registers.values()` (a `NamedQubit` is never fundamental) -/
 def isFundamental : Val → Bool
